@@ -280,6 +280,9 @@ class _Passthrough:
     def _merge_rebinding(self, st, nxt):
         return None
 
+    def _memo_dict(self, st, nxt):
+        return False
+
     def block_done(self, stmts):
         return _Stmts.block(self, stmts)
 
@@ -330,6 +333,11 @@ class _Stmts:
             if unrolled is not None:
                 body = body[:i] + unrolled + body[i + 1:]
                 st = body[i]
+            # N19: D = {}; for o in L: [if id(o) not in D:] D[id(o)] = V(o)   with every other use of D a read D[id(x)]   ->   those reads are V(x), D and the loop go
+            #      (a per-call memo keyed by object identity: the same object gives the same pure attribute read; any other key may merge different objects and stays)
+            if self._memo_dict(st, body[i + 1] if i + 1 < len(body) else None):
+                body = body[:i] + body[i + 2:]
+                continue
             # N16: X = a.b.c; if X is None: X = F   ->   if a.b.c is not None: X = a.b.c  else: X = F      (fetch-then-default; a.b.c a pure attribute chain)
             dflt = self._fetch_default(st, body[i + 1] if i + 1 < len(body) else None)
             if dflt is not None:
@@ -467,6 +475,68 @@ class _Stmts:
             return None
         test = ast.copy_location(ast.Compare(left=copy.deepcopy(st.value), ops=[ast.IsNot()], comparators=[ast.Constant(value=None)]), t)
         return ast.copy_location(ast.If(test=test, body=[st], orelse=[nxt.body[0]]), st)
+
+    def _memo_dict(self, st, nxt) -> bool:
+        if not (isinstance(st, ast.Assign) and len(st.targets) == 1 and isinstance(st.targets[0], ast.Name) and self.func is not None):
+            return False
+        v = st.value
+        if not ((isinstance(v, ast.Dict) and not v.keys) or (isinstance(v, ast.Call) and isinstance(v.func, ast.Name) and v.func.id == "dict" and not v.args and not v.keywords)):
+            return False
+        if not (isinstance(nxt, ast.For) and not nxt.orelse and len(nxt.body) == 1 and isinstance(nxt.target, ast.Name)):
+            return False
+        D, o = st.targets[0].id, nxt.target.id
+
+        def is_key(e, var):
+            return isinstance(e, ast.Call) and isinstance(e.func, ast.Name) and e.func.id == "id" and len(e.args) == 1 and not e.keywords and isinstance(e.args[0], ast.Name) and e.args[0].id == var
+        inner = nxt.body[0]
+        if isinstance(inner, ast.If) and not inner.orelse and len(inner.body) == 1:
+            t = inner.test
+            if not (isinstance(t, ast.Compare) and len(t.ops) == 1 and isinstance(t.ops[0], ast.NotIn) and is_key(t.left, o) and isinstance(t.comparators[0], ast.Name) and t.comparators[0].id == D):
+                return False
+            inner = inner.body[0]
+        if not (isinstance(inner, ast.Assign) and len(inner.targets) == 1 and isinstance(inner.targets[0], ast.Subscript) and isinstance(inner.targets[0].value, ast.Name)
+                and inner.targets[0].value.id == D and is_key(inner.targets[0].slice, o)):
+            return False
+        V = inner.value
+        if not _pure_read(V) or not isinstance(V, ast.Attribute):
+            return False
+        root = V
+        while isinstance(root, (ast.Attribute, ast.Subscript)):
+            root = root.value
+        if root.id != o or _names(nxt.iter, D):
+            return False
+        # every other occurrence of D in the function is a read D[id(x)], x a name; the loop variable is not read after the loop
+        mine = {id(m) for m in ast.walk(st)} | {id(m) for m in ast.walk(nxt)}
+        reads = []
+        parents = {}
+        for p_ in ast.walk(self.func):
+            for ch in ast.iter_child_nodes(p_):
+                parents[id(ch)] = p_
+        for m in ast.walk(self.func):
+            if isinstance(m, ast.Name) and id(m) not in mine:
+                if m.id == D:
+                    par = parents.get(id(m))
+                    if not (isinstance(par, ast.Subscript) and par.value is m and isinstance(par.ctx, ast.Load) and isinstance(par.slice, ast.Call) and isinstance(par.slice.func, ast.Name)
+                            and par.slice.func.id == "id" and len(par.slice.args) == 1 and isinstance(par.slice.args[0], ast.Name)):
+                        return False
+                    reads.append(par)
+        if not reads:
+            return False
+        import copy as _copy
+
+        class R(ast.NodeTransformer):
+            def visit_Subscript(s2, n):
+                s2.generic_visit(n)
+                if any(n is r for r in reads):
+                    x = n.slice.args[0].id
+
+                    class Sub(ast.NodeTransformer):
+                        def visit_Name(s3, nm):
+                            return ast.copy_location(ast.Name(id=x, ctx=nm.ctx), nm) if nm.id == o else nm
+                    return ast.copy_location(Sub().visit(_copy.deepcopy(V)), n)
+                return n
+        R().visit(self.func)
+        return True
 
     def _append_loop(self, st, nxt):
         if not (isinstance(st, ast.Assign) and len(st.targets) == 1 and isinstance(st.targets[0], ast.Name) and isinstance(st.value, ast.List) and not st.value.elts):
